@@ -11,7 +11,7 @@ For every property:
 """
 import re
 
-from . import v2gen, buildgen
+from . import v2gen, buildgen, v1gen
 from .lib import Rng, expr, expr_bytes, expr_len, hx, SIG
 
 FLAGS = re.compile(r" i([01])c([01])$")
@@ -534,7 +534,42 @@ class C13(Prop):
         return None
 
 
-REGISTRY = {c.id: c for c in (C02(), C07(), C09(), C10(), C11(), C13(), C14(), C17(), C20())}
+def is_utf8(b):
+    try:
+        b.decode("utf-8")
+        return True
+    except UnicodeDecodeError:
+        return False
+
+
+class XV1(Prop):
+    """internal: validates the v1 / auto model against the implementation on every v1 stream, all entry points"""
+    id = "XV1"
+    streams = v1gen.V1_STREAMS + (v2gen.signature,)
+
+    def groups(self, stream, e, meta):
+        cases = ["v1b " + e, "auto " + e, "views1 " + e]
+        if is_utf8(expr_bytes(e)):
+            cases += ["v1s " + e, "v1fh " + e, "v1fa " + e]
+        yield ("all", cases)
+
+    def project(self, case, line):
+        return line.split(" | ")[0]
+
+
+class XSTD(Prop):
+    """internal: validates the Std models against the real standard library"""
+    id = "XSTD"
+    streams = (v1gen.std_cases,)
+
+    def groups(self, stream, e, meta):
+        yield ("std", ["std %s %s" % e])
+
+    def neighbours(self, case, rng):
+        return iter(())
+
+
+REGISTRY = {c.id: c for c in (XV1(), XSTD(), C02(), C07(), C09(), C10(), C11(), C13(), C14(), C17(), C20())}
 
 
 def get(prop):
